@@ -128,7 +128,13 @@ def run_case(case):
 
         name = case["name"]
         res.label("config_invalid")
+        first = None
+        for _ in range(case.get("lookups", 1) - 1):
+            o_, e_ = call(lambda: keymap[name])  # the same name looked up before: the answer must not depend on that
+            first = first or (("exc", type(e_).__name__) if e_ is not None else ("ok", o_))
         out, e = call(lambda: keymap[name])
+        if first is not None and first != ((("exc", type(e).__name__) if e is not None else ("ok", out))):
+            res.viol("config_lookup_not_repeatable", name=name, first=repr(first), later=exc_str(e) if e is not None else repr(out))
         if name == "":
             if e is not None or out != ():
                 res.viol("unbound_key_not_empty", got=repr(out), error=exc_str(e) if e else "")
@@ -168,7 +174,9 @@ def campaign(col, tier, seed, shard, nshards):
             go({"kind": "config", "name": name, "family": fam}, sample=fam not in fam_seen)
             fam_seen.add(fam)
         for name in [""] + INVALID:
-            go({"kind": "config_invalid", "name": name}, sample=(name == "F"))
+            go({"kind": "config_invalid", "name": name, "lookups": 3}, sample=(name == "F"))
+        for fam, name in valid_config_names():
+            go({"kind": "config", "name": name, "family": fam, "again": True})
         col.exhaustive["config_names"] = True
     for enc in km.ENCODINGS + km.ALIASES:
         nodes = c03.tree_nodes(enc, tier)
